@@ -265,6 +265,8 @@ func runC01(c *Ctx) {
 	checkNoStreamInRetry(c, "read.no-stream-in-retry", "pkg/cafs")
 	checkShortReadIsNotEOF(c, "read.short-read-not-eof")
 	checkBlobPutsIdempotent(c, "dedup.blob-puts-idempotent")
+	checkLeafBufferNotRetained(c, "read.leaf-buffer-not-retained")
+	checkReadAtExits(c, "read.readat-exits")
 }
 
 // checkWriterHandoff: ownership of the buffer given to `go pFlush`.
@@ -794,6 +796,7 @@ func runC02(c *Ctx) {
 	checkFlushGuard(c, "tree-format.empty-tail-adds-no-leaf")
 	checkGenericErrorDiscipline(c, "pkg/cafs")
 	checkWriterChannelsUnbuffered(c, "chunking-independence.channels-unbuffered")
+	checkKeyDerivationStateless(c, "tree-format.key-derivation-stateless")
 }
 
 func isFoundAndNotOverwrite(f *FuncInfo, e ast.Expr) bool {
